@@ -159,6 +159,39 @@ CHECKS["C17"] = ("other",
     "machine-checked proof in Coq for the CLI/API setting algebra (model regenerated from the source each run) + "
     "byte-level exploration of rcomp vs API in fresh processes", "DESIGN.md §6 C17")
 
+CHECKS["C08"] = ("translation_validation",
+    "PROVED in Coq (unbounded, every table passing enc_wf_b): arrays_roundtrip, functions_roundtrip, layouts_agree, "
+    "prodkind_roundtrip/total/order: decoding the nested-array and the match-function encoding the generator writes "
+    "answers every action, goto (undefined = the documented panic) and expected-token query exactly as the table; ProdKind "
+    "discriminants are the rank among non-augmented productions. CHECKED on the real code, exhaustive per generated "
+    "parser: the real generator runs from a build.rs, rustc compiles its output for grammars x {Arrays, Functions} x "
+    "{LR, GLR}; EVERY state x token, state x nonterminal and state query of the compiled ParserDefinition (plus "
+    "longest_match, grammar_order, default_layout, enum order and names) is compared with the hook dump made with the same "
+    "Settings; the source text of PARSER_DEFINITION / the match functions (read back with syn) equals encode_* of the dump "
+    "inside Coq; both layouts and the dynamic harness route parse the same inputs identically.",
+    "translation validation of the generated code against the dumped table (exhaustive per parser) + Coq round-trip "
+    "theorems + kernel-checked source-text/model equality", "DESIGN.md §6 C08, reports/C08-C10-C11.md")
+CHECKS["C11"] = ("other",
+    "rustc's type checker has no Gallina model; what is logic is proved: the choice-name de-duplication model "
+    "(types/mod.rs make_choices_name_unique) is refuted (choice_names_unique_refuted) and proved duplicate-free outside a "
+    "decidable clash class for every HashMap order (choice_names_unique_known), and tied each run to the generated AST "
+    "enums. The rest is exploration: the real generator's output for generated grammars (recursive, optional, "
+    "vector-shaped, unreachable rules, named assignments, kinds, keyword-like names) is type-checked by cargo check over "
+    "96 configurations of {LR,GLR} x {Default,Generic,Custom builder} x {Arrays,Functions} x loc_info x fancy_regex x "
+    "{default,custom lexer}, every parser constructed and called; a rustc rejection of an accepted grammar is a violation "
+    "keyed by error code + generated item (16 recorded findings).",
+    "exploration (cargo check of real generated code over the configuration product) + Coq proof for the name "
+    "de-duplication logic", "DESIGN.md §6 C11, reports/C08-C10-C11.md")
+CHECKS["C10"] = ("other",
+    "PROVED in Coq: vec_in_order (for every derivation of a vector rule, in both recursion directions, the generated Vec "
+    "actions yield the elements in input order), tied each run to the real values; only the Vec actions of the default "
+    "builder are modelled. The other clauses (every content token exactly once across all type shapes, None iff absent, "
+    "GLR replay incl. right-nulled reductions, loc_info) are exploration: compiled default-builder parsers (LR and GLR, "
+    "loc_info on/off) are run and the string literals of the Debug rendering of the returned value are compared with the "
+    "content tokens of the generic parse tree of the same input (order, count, spans, number of None).",
+    "exploration of compiled real generated parsers against the generic tree + Coq proof for the vector actions",
+    "DESIGN.md §6 C10, reports/C08-C10-C11.md")
+
 PENDING_REASON = ("not yet claimed: check under construction (DESIGN.md §6 describes the planned theorem, validator and "
                   "correspondence); it is registered only once it runs end to end")
 
